@@ -29,6 +29,8 @@ pub enum Ty {
     Any,                     // the payload type of a bare `None`: unifies with everything
     /// `F: FnMut(&mut T) -> U` seen as a stateless function `T → M (U × T)` (the argument handed back)
     FnMut1(Box<Ty>, Box<Ty>),
+    /// `BinaryHeap<T>` by its contract: a bag of elements, `pop`/`peek` deliver a greatest one by `T::cmp`
+    Heap(Box<Ty>),
 }
 
 #[derive(Default)]
@@ -45,6 +47,8 @@ pub struct World {
     pub drop_views: BTreeMap<String, (String, String, String)>,
     /// structs that deref to `&[u8]` of length `self.<field>` (checked by a `derefslice` target): struct -> field
     pub slice_len: BTreeMap<String, String>,
+    /// structs translated with `only=`: the other fields are invisible to the translated functions
+    pub partial_structs: std::collections::BTreeSet<String>,
 }
 
 #[derive(Clone, Debug)]
@@ -107,7 +111,7 @@ impl World {
             Ty::I(_) => "Int".into(),
             Ty::Bool => "Bool".into(),
             Ty::Bytes => "List UInt8".into(),
-            Ty::List(e) => format!("List ({})", self.lean_ty(e)?),
+            Ty::List(e) | Ty::Heap(e) => format!("List ({})", self.lean_ty(e)?),
             Ty::Opt(e) => format!("Option ({})", self.lean_ty(e)?),
             Ty::Res(e) => self.lean_ty(e)?,
             Ty::Unit => "Unit".into(),
@@ -169,6 +173,7 @@ impl World {
                         let e = arg0()?;
                         if e == Ty::U(8) { Ty::Bytes } else { Ty::List(Box::new(e)) }
                     }
+                    "BinaryHeap" => Ty::Heap(Box::new(arg0()?)),
                     "Option" => Ty::Opt(Box::new(arg0()?)),
                     "Result" => Ty::Res(Box::new(arg0()?)),
                     "Bound" => Ty::Bound(Box::new(arg0()?)),
@@ -214,7 +219,17 @@ impl World {
                         }
                         fields.push((n, self.ty_of(&fl.ty, &g)?));
                     }
-                    let is_ext = fields.iter().any(|(_, t)| *t == Ty::Cursor || *t == Ty::ExtW);
+                    fn mentions_ext(w: &World, t: &Ty) -> bool {
+                        match t {
+                            Ty::Cursor | Ty::ExtW => true,
+                            Ty::Named(n) => w.ext_structs.contains(n),
+                            Ty::List(e) | Ty::Heap(e) | Ty::Opt(e) | Ty::Res(e) | Ty::Bound(e) => mentions_ext(w, e),
+                            Ty::Tuple(ts) => ts.iter().any(|t| mentions_ext(w, t)),
+                            _ => false,
+                        }
+                    }
+                    let is_ext = fields.iter().any(|(_, t)| mentions_ext(self, t));
+                    if only.is_some() { self.partial_structs.insert(name.to_string()); }
                     if is_ext {
                         self.ext_structs.insert(name.to_string());
                     }
@@ -429,6 +444,10 @@ pub struct Ctx<'w> {
     pub used_wwrite: bool,
     pub used_wflush: bool,
     pub used_compress: bool,
+    /// the body calls the user's merge function (`self.merge_function.merge(key, values)`): external parameter `merge`
+    pub used_merge: bool,
+    /// `tuplelet=1` on the target line
+    pub tuple_let: bool,
     /// wrappers still alive at the end of the function: (place text, Lean callee, place) dropped before the final return
     pub pending_drops: Vec<(String, String)>,
     /// rust variables standing for one element of a list place (`if let Some(x) = v.last_mut()`, `split_last_mut`)
